@@ -37,6 +37,35 @@ def d1(ctx, prog):
               f'(S{diff[0][0] + 1 if diff and diff[0] else "?"} in 6-bit direct order)', 'all 8 x 64 S-box entries equal FIPS 46-3', tables.where(prog, D, node), entries=512)
 
 
+def bv_permutation(prog, f, n_in, unit_in):
+    """a bit permutation interpreted on one row of provenance words (sa.bitvec cells under sa.symtensor, numpy doing the indexing):
+    -> {output column: word} or None when not evaluable; Abort when the function mixes bits (it is not a selection of input bits)"""
+    from .. import symtensor, ratfun, bitvec
+    np = symtensor.np
+    if np is None:
+        return None
+    data = np.empty((1, n_in), dtype=object)
+    for i in range(n_in):
+        data[0, i] = bitvec.BV.source('data', i, unit_in)
+    te = symtensor.TensorEval(prog, None, {})
+    te.summaries = {'_is_bytes_of_len': lambda a, k: None, '_is_bytes_array': lambda a, k: None}
+    try:
+        out = te.run(f, {f.params[0]: data})
+    except bitvec.Mix as e:
+        raise bitprov.Abort(f'not a selection of input bits: {e}')
+    except (ratfun.Unknown, symtensor.Raised, IndexError, ValueError, TypeError, AttributeError):
+        return None
+    if not isinstance(out, np.ndarray) or out.ndim != 2 or out.shape[0] != 1:
+        return None
+    arr = {}
+    for c in range(out.shape[1]):
+        try:
+            arr[c] = bitvec.BV.lift(out[0, c])
+        except bitvec.Mix:
+            return None
+    return arr
+
+
 def d2(ctx, prog):
     invP = [0] * 32
     for i, v in enumerate(fips.P):
@@ -60,8 +89,16 @@ def d2(ctx, prog):
                 raise bitprov.Abort('returned value is not the bit-sliced output array')
             rel = bitprov.relation(it.arrays[rname], nc, uo, ui)
         except bitprov.Abort as e:
-            ctx.undecided('C06-D2', key, f'provenance analysis aborted: {e}', f.where())
-            continue
+            # table-driven / helper-based forms: the function interpreted on provenance words, numpy doing the indexing
+            try:
+                n_in = {'initial_permutation': 8, 'final_permutation': 8, 'expansive_permutation': 4, 'permutation_p': 8, 'inv_permutation_p': 4}[name]
+                arr_ = bv_permutation(prog, f, n_in, ui)
+                if arr_ is None:
+                    raise bitprov.Abort(str(e))
+                rel = bitprov.relation(arr_, nc, uo, ui)
+            except bitprov.Abort as e2:
+                ctx.undecided('C06-D2', key, f'provenance analysis aborted: {e2}', f.where())
+                continue
         n += len(rel)
         bad = [(i + 1, rel[i], want[i]) for i in range(len(want)) if rel[i] != want[i]] if len(rel) == len(want) else [('len', len(rel), len(want))]
         if bad:
